@@ -14,6 +14,7 @@ import os
 import re
 from concurrent.futures import ThreadPoolExecutor
 
+import c04_cfgs
 import common as C
 import ffi
 
@@ -25,7 +26,7 @@ MC_KNOWN = ["MC_Symbols_k_elf_asmUnderscore.cfg", "MC_Symbols_k_elf_suffixLike.c
             "MC_Symbols_k_macho_noMangling.cfg", "MC_Symbols_k_elf_varLinkOverride.cfg"]
 SENSITIVITY = ["MC_Symbols_x_noKeywordLink.cfg", "MC_Symbols_x_noOverloadSuffix.cfg",
                "MC_Symbols_x_noSeen.cfg", "MC_Symbols_x_mangleVerbatim.cfg"]
-TAMPER = os.environ.get("VERIF_C04_TAMPER", "")     # swapargs | obs-link (non-vacuity demonstrations)
+TAMPER = os.environ.get("VERIF_C04_TAMPER", "")     # swapargs | obs-link | bindings-sign (non-vacuity demonstrations)
 
 
 def model(res):
@@ -95,8 +96,8 @@ class Batch:
         self.dir = C.workdir("c04-" + name)
         self.libs = [ffi.Library(rec, types, "%s%03d" % (name, i)) for i, rec in enumerate(libs)]
         self.obs = []          # observations for Trace_Symbols
-        self.counts = {"decls": 0, "bindings": 0, "calls_executed": 0, "calls_ok": 0, "globals_ok": 0,
-                       "libraries": 0, "exec_libraries": 0}
+        self.counts = ffi.Counts({"decls": 0, "bindings": 0, "calls_executed": 0, "calls_ok": 0, "globals_ok": 0,
+                       "libraries": 0, "exec_libraries": 0})
 
     def p(self, lib, f):
         return os.path.join(self.dir, lib.name + f)
@@ -122,6 +123,11 @@ class Batch:
                 lib.failed = True
             else:
                 lib.failed = False
+        if TAMPER == "bindings-sign":       # tampered bindings: unsigned short lowered to a signed type
+            for l in self.libs:
+                if not l.failed:
+                    t = open(self.p(l, ".rs")).read().replace("c_ushort", "c_short")
+                    open(self.p(l, ".rs"), "w").write(t)
         invs = C.inventory([self.p(l, ".rs") for l in self.libs if not l.failed])
         with ThreadPoolExecutor(max_workers=10) as ex:
             list(ex.map(lambda l: self.one(l, invs.get(self.p(l, ".rs"), {})), [l for l in self.libs if not l.failed]))
@@ -130,7 +136,7 @@ class Batch:
     # -----------------------------------------------------------------------------------------
     def one(self, lib, inv):
         res = self.res
-        self.counts["libraries"] += 1
+        self.counts.inc("libraries", 1)
         if not inv.get("ok"):
             raise C.ToolError("bindings of %s do not parse: %s" % (lib.name, inv.get("err")))
         items = ffi.foreign_items(inv)
@@ -143,7 +149,7 @@ class Batch:
                 res.violation("duplicate-ident:%s" % lib.name, {"library": lib.name, "ident": ident})
         present, statics, used = {}, {}, set()
         for f in lib.fns:
-            self.counts["decls"] += 1
+            self.counts.inc("decls", 1)
             p = f["pred"]
             cands = by_ident.get(p["ident"], []) if p["emitted"] else []
             it = cands[0] if cands else None
@@ -167,7 +173,7 @@ class Batch:
                 f["unpredicted"] = True
             f["item"] = it
             present[f["i"]] = it["ident"]
-            self.counts["bindings"] += 1
+            self.counts.inc("bindings", 1)
             if f["kind"] == "gvar":
                 statics[f["i"]] = {"mut": it.get("mut", False)}
                 if p.get("mut") is not None and it.get("mut") != p["mut"]:
@@ -178,7 +184,7 @@ class Batch:
             present.pop(f["i"], None)      # not called; only its symbol is judged
         if not self.build_and_run(lib, present, statics, items):
             return
-        self.counts["exec_libraries"] += 1
+        self.counts.inc("exec_libraries", 1)
 
     # -----------------------------------------------------------------------------------------
     def build_and_run(self, lib, present, statics, items):
@@ -278,6 +284,9 @@ class Batch:
                 "shape": shape_key(f), "key": self.sym_key(lib, f)})
         # every symbol the Rust object needs from C is defined by the clang object
         rc, out, err = ffi.run([exe], cwd=self.dir, timeout=120)
+        for junk in (exe, os.path.join(self.dir, lib.name + "_main.o"), self.p(lib, ".o"), self.p(lib, "_stubs.o")):
+            if os.path.exists(junk):
+                os.remove(junk)          # keep the scratch small: sources stay, binaries go
         if rc != 0:
             res.violation("caller-crashed:%s" % lib.name, {"library": lib.name, "rc": rc, "stderr": err[-400:]})
             return False
@@ -290,7 +299,7 @@ class Batch:
             f = fidx[i]
             p = f["pred"]
             g = got.get(i)
-            self.counts["calls_executed"] += 1
+            self.counts.inc("calls_executed", 1)
             if g is None:
                 res.violation("no-result:%s" % shape_key(f), {"library": lib.name, "decl": f["cname"]})
                 continue
@@ -300,7 +309,7 @@ class Batch:
                     res.violation("global-value:%s" % shape_key(f), {"library": lib.name, "decl": f["cname"], "read_written_tokens": g,
                                                                       "expected": exp, "binding": f["item"]["tokens"][:200]})
                 else:
-                    self.counts["globals_ok"] += 1
+                    self.counts.inc("globals_ok", 1)
                 continue
             exp = [p["code"], -1 if f["ret"] == "void" or f["kind"] == "noreturn" else p["rtok"], -1 if f["kind"] == "noreturn" else p["cbcode"]]
             if g != exp:
@@ -309,7 +318,7 @@ class Batch:
                               {"library": lib.name, "decl": f["cname"], "observed[code,ret,cb]": g, "predicted": exp,
                                "binding": f["item"]["tokens"][:300], "flags": lib.flags()})
             else:
-                self.counts["calls_ok"] += 1
+                self.counts.inc("calls_ok", 1)
         return True
 
     def sym_key(self, lib, f):
@@ -349,6 +358,81 @@ def validate_symbols(res, obs, name):
     return counts["obs"]
 
 
+def cross_symbols(path, target, lang="c", flags=()):
+    """Compile a definitions file for another object format and list its symbols (llvm-nm)."""
+    obj = path + "." + target + ".o"
+    cmd = ["clang", "--target=" + target, "-w", "-c", path, "-o", obj] + list(flags)
+    if lang == "c++":
+        cmd[1:1] = ["-x", "c++"]
+    rc, _, err = ffi.run(cmd)
+    if rc != 0:
+        raise C.ToolError("clang --target=%s failed on %s: %s" % (target, path, err[:600]))
+    defined, _ = ffi.nm_symbols(obj, tool="llvm-nm")
+    os.remove(obj)
+    return defined
+
+
+def symbol_containing(defined, cname):
+    """The one defined symbol that is the compiler's name of `cname`: C (`cname`, `_cname`, `_cname@N`,
+    `@cname@N`), Itanium C++ (<len>cname inside _Z...), MSVC C++ (?cname@...)."""
+    c = re.escape(cname)
+    pats = [re.compile(r"^[_@]?%s(@\d+)?$" % c), re.compile(r"_Z[A-Z]*%d%s(?![A-Za-z0-9_$]*%s)" % (len(cname), c, "\\$y" if "$" not in cname else "#")),
+            re.compile(r"^\?%s@" % c)]
+    hits = sorted({s for s in defined for p in pats if p.search(s)})
+    if len(hits) != 1:
+        raise C.ToolError("cannot identify the compiler's symbol of %s among %s (candidates %s)" % (cname, sorted(defined)[:12], hits))
+    return hits[0]
+
+
+def replay_model_counterexamples(res):
+    """The shapes on which MC_Symbols produces counterexamples (MC_KNOWN), rendered and run on the real
+    bindgen.  asmUnderscore and varLinkOverride are executed through Gen_Funcs_known*.cfg; here: the
+    overload-suffix collision and --distrust-clang-mangling on Mach-O."""
+    d = C.workdir("c04-known")
+    # (1) UniqueIdents counterexample of MC_Symbols_k_elf_suffixLike: overloads f, f + a function named f1
+    hp = os.path.join(d, "suffix.hpp")
+    with open(hp, "w") as f:
+        f.write("void f(int);\nvoid f(float);\nvoid f1();\n")
+    out = C.run_jobs([{"id": "suffix", "args": ["bindgen", "--formatter=none", hp], "out": os.path.join(d, "suffix.rs")}],
+                     threads=1, name="c04-known-jobs", cwd=d)
+    if out["suffix"]["outcome"] != "ok":
+        raise C.ToolError("known-shape header rejected: %s" % out["suffix"])
+    inv = C.inventory([os.path.join(d, "suffix.rs")])[os.path.join(d, "suffix.rs")]
+    idents = [it["ident"] for it in ffi.foreign_items(inv)]
+    dups = sorted({i for i in idents if idents.count(i) > 1})
+    rc, _, err = ffi.run(["rustc", "--edition", "2021", "--crate-type", "lib", "--emit=metadata", "--out-dir", d,
+                          os.path.join(d, "suffix.rs")])
+    if dups:
+        res.violation("duplicate-ident:overload-suffix-vs-declared-name",
+                      {"header": open(hp).read(), "idents": idents, "rustc_rejects": rc != 0, "rustc": err[:300]})
+    else:
+        res.notes.append("model counterexample (overload suffix vs declared name) not reproduced on the real code")
+    # (2) SymbolsOK counterexample of MC_Symbols_k_macho_noMangling
+    hp = os.path.join(d, "nomangle.h")
+    with open(hp, "w") as f:
+        f.write("int fn(int x);\nint plainfn(int x);\n")
+    cp = os.path.join(d, "nomangle.c")
+    with open(cp, "w") as f:
+        f.write('#include "nomangle.h"\nint fn(int x) { return x; }\nint plainfn(int x) { return x; }\n')
+    tgt = "x86_64-apple-darwin"
+    out = C.run_jobs([{"id": "nomangle", "args": ["bindgen", "--formatter=none", "--distrust-clang-mangling", hp, "--", "--target=" + tgt],
+                       "out": os.path.join(d, "nomangle.rs")}], threads=1, name="c04-known-jobs", cwd=d)
+    if out["nomangle"]["outcome"] != "ok":
+        raise C.ToolError("known-shape header rejected: %s" % out["nomangle"])
+    inv = C.inventory([os.path.join(d, "nomangle.rs")])[os.path.join(d, "nomangle.rs")]
+    defined = cross_symbols(cp, tgt)
+    obs = []
+    for it in ffi.foreign_items(inv):
+        cname = "fn" if it["ident"] == "fn_" else it["ident"]
+        csym = symbol_containing(defined, cname)
+        obs.append({"ev": "obs", "case": "nomangle/" + cname, "target": "macho", "kind": "fn", "abi": it["abi"], "variadic": False,
+                    "argbytes": 0, "ident": ffi.chars(it["ident"]), "link": {"kind": it["link"]["kind"], "name": ffi.chars(it["link"]["name"])},
+                    "csym": ffi.chars(csym), "wanted": ffi.chars(csym), "defined": True, "referenced": "na",
+                    "pred": {"ident": ffi.chars(it["ident"]), "link": {"kind": it["link"]["kind"], "name": ffi.chars(it["link"]["name"])}},
+                    "shape": "nomangling", "key": "symbol:nomangling-%s:macho" % ("keyword" if cname == "fn" else "plain")})
+    validate_symbols(res, obs, "known")
+
+
 def replay_batch(res, types, libs, name, exec_counts):
     b = Batch(res, types, libs, name).run()
     n = validate_symbols(res, b.obs, name)
@@ -364,27 +448,29 @@ def run(res, tier):
         "C text and boundary values of the type ids come from lib/ffi.py; Rust types, identifiers, link names, checksums from TLC",
     ]
     C.build()
+    c04_cfgs.ensure()
     model(res)
     thorough = tier == "thorough"
-    counts = {}
+    counts = ffi.Counts()
     seed = C.seed()
     # ---- exhaustive sweeps: every type x token as single argument, as return value, as global --------
     sweeps = [("Gen_Funcs_arg1.cfg", 400), ("Gen_Funcs_ret.cfg", 400), ("Gen_Funcs_gvar.cfg", 200),
               ("Gen_Funcs_pairs_t.cfg" if thorough else "Gen_Funcs_pairs_q.cfg", 400),
               ("Gen_Funcs_pad_t.cfg" if thorough else "Gen_Funcs_pad_q.cfg", 400),
-              ("Gen_Funcs_known.cfg", 50)]
+              ("Gen_Funcs_known.cfg", 200), ("Gen_Funcs_known_plink.cfg", 200)]
     total_behaviours = 0
     for cfg, chunk in sweeps:
         types, libs = generate(res, cfg)
         total_behaviours += len(libs)
-        merged = merge(libs, chunk) if cfg != "Gen_Funcs_known.cfg" else libs[:6]
+        merged = merge(libs, chunk)
         tag = cfg[len("Gen_Funcs_"):-4]
         replay_batch(res, types, merged, tag, counts)
         f0 = merged[0]["fns"][0]
         res.sample_case({"sweep": tag, "behaviours": len(libs), "libraries": len(merged), "example": f0["cname"],
                          "predicted": {k: f0["pred"].get(k) for k in ("ident", "link", "sig", "code", "rustty")}})
+    replay_model_counterexamples(res)
     # ---- random libraries (TLC -simulate): all kinds, name shapes and options together -----------------
-    nsim = 150 if thorough else 36
+    nsim = 500 if thorough else 36
     types, libs = generate(res, "Gen_Funcs_sim_t.cfg" if thorough else "Gen_Funcs_sim_q.cfg", simulate=nsim, seed=seed, name="sim")
     total_behaviours += len(libs)
     replay_batch(res, types, libs, "sim", counts)
@@ -395,3 +481,9 @@ def run(res, tier):
         c04_extra.run(res, counts)
     res.add(traces_validated_against_impl=counts.get("exec_libraries", 0), behaviours_generated=total_behaviours, **counts)
     res.cov["exhaustive"] = False
+
+
+def replay(res, path):
+    """Behaviours are regenerated deterministically from the specification and VERIF_SEED: replaying a
+    violation file re-runs the tier that produced it."""
+    run(res, "thorough" if "thorough" in os.path.basename(path) else "quick")
